@@ -199,6 +199,15 @@ func buildStubs() map[string]stubFn {
 			alts[i] = in.ctx.Eq(t, in.ctx.BVConst(uint64(i), 64))
 		}
 		ch := in.decideNoCheck(k, alts)
+		if in.modelOK && in.model != nil {
+			// t is fresh, hence unconstrained: extend the cached model instead of dropping it
+			nm := make(map[string]uint64, len(in.model)+1)
+			for k2, v2 := range in.model {
+				nm[k2] = v2
+			}
+			nm[t.Name] = uint64(ch)
+			in.model = nm
+		}
 		return in.ctx.BVConst(uint64(ch), 64)
 	}
 	m["vsym.Assume"] = func(in *Interp, fn *ssa.Function, args []Value) Value {
@@ -212,6 +221,9 @@ func buildStubs() map[string]stubFn {
 	}
 	m["vsym.Reach"] = func(in *Interp, fn *ssa.Function, args []Value) Value {
 		tag := in.concStr(args[0], "reach tag")
+		if !in.opts.ConcreteMode {
+			in.flushAsserts()
+		}
 		if in.opts.ConcreteMode || in.events >= in.synced {
 			if in.pathUnknown && in.sol != nil && in.sol.Check() != sym.Sat {
 				return nil
@@ -222,7 +234,7 @@ func buildStubs() map[string]stubFn {
 				n := in.res.Reach[tag]
 				if n <= 2 || n&(n-1) == 0 {
 					if in.sol.Check() == sym.Sat {
-						if m := in.model(); m != nil {
+						if m := in.modelInputs(); m != nil {
 							in.res.Witnesses = append(in.res.Witnesses, m)
 						}
 					}
@@ -582,6 +594,9 @@ func buildStubs() map[string]stubFn {
 	// ---- time ----
 	m["time.Now"] = func(in *Interp, fn *ssa.Function, args []Value) Value {
 		// Time{wall uint64, ext int64, loc *Location}; we keep unix nanoseconds in ext, wall = 0 marker
+		if in.initMode {
+			return &Agg{e: []Value{in.ctx.BVConst(0, 64), in.ctx.BVConst(1700000000000000000, 64), Ptr{}}}
+		}
 		t := in.fresh("time.Now", "i64", sym.BV(64))
 		if in.timeSeq != nil && !in.opts.ConcreteMode {
 			in.assume(in.ctx.SLE(in.timeSeq, t))
@@ -643,6 +658,45 @@ func buildStubs() map[string]stubFn {
 		m["github.com/youzan/ZanRedisDB/common."+n] = allocZero
 	}
 
+	m["github.com/gogo/protobuf/proto.CompactTextString"] = func(in *Interp, fn *ssa.Function, args []Value) Value { return in.mkStr("<proto>") }
+	m["github.com/golang/protobuf/proto.CompactTextString"] = m["github.com/gogo/protobuf/proto.CompactTextString"]
+	m["github.com/gogo/protobuf/proto.EnumName"] = func(in *Interp, fn *ssa.Function, args []Value) Value { return in.mkStr("<enum>") }
+	m["(*github.com/youzan/ZanRedisDB/raft.lockedRand).Intn"] = func(in *Interp, fn *ssa.Function, args []Value) Value {
+		n := termArg(args[1])
+		if n.IsConst() && n.SignedVal() <= 0 {
+			in.throw("invalid argument to Intn")
+		}
+		t := in.fresh("rand.Intn", "i64", sym.BV(64))
+		if in.opts.ConcreteMode {
+			return in.ctx.URem(t, n)
+		}
+		in.assume(in.ctx.And(in.ctx.SLE(in.ctx.BVConst(0, 64), t), in.ctx.SLT(t, n)))
+		return t
+	}
+
+	// ---- math/rand: opaque generators, results are fresh symbolic values in range ----
+	m["math/rand.NewSource"] = func(in *Interp, fn *ssa.Function, args []Value) Value { return Iface{} }
+	m["math/rand.New"] = allocZero
+	randIntn := func(argIdx int) stubFn {
+		return func(in *Interp, fn *ssa.Function, args []Value) Value {
+			n := termArg(args[argIdx])
+			t := in.fresh("rand", "i64", n.S)
+			if in.opts.ConcreteMode || in.initMode {
+				return in.ctx.BVConst(0, n.S.W)
+			}
+			in.assume(in.ctx.And(in.ctx.SLE(in.ctx.BVConst(0, n.S.W), t), in.ctx.SLT(t, n)))
+			return t
+		}
+	}
+	m["(*math/rand.Rand).Intn"] = randIntn(1)
+	m["(*math/rand.Rand).Int63n"] = randIntn(1)
+	m["(*math/rand.Rand).Int31n"] = randIntn(1)
+	m["math/rand.Intn"] = randIntn(0)
+	m["math/rand.Int63n"] = randIntn(0)
+	m["math/rand.Int31n"] = randIntn(0)
+	m["math/rand.Seed"] = zeroStub
+	m["(*math/rand.Rand).Seed"] = zeroStub
+
 	// ---- misc runtime ----
 	m["runtime.Caller"] = zeroStub
 	m["runtime.Callers"] = zeroStub
@@ -673,6 +727,7 @@ func (in *Interp) floatBits(f *sym.Term) *sym.Term {
 	}
 	// fresh bits b with to_fp(b) == f (bitwise: use fp "=" via assume on both isNaN and eq)
 	b := in.ctx.Var(fmt.Sprintf("fbits!%d", f.ID), sym.BV(64))
+	in.auxVars = append(in.auxVars, b)
 	back := in.ctx.FFromBits(b)
 	same := in.ctx.Or(in.ctx.And(in.ctx.FIsNaN(f), in.ctx.FIsNaN(back)), in.ctx.And(in.ctx.FEq(f, back), in.ctx.Eq(in.signBit(b), in.fpSign(f))))
 	in.assume(same)
